@@ -7,6 +7,7 @@ CONSTANTS Chars, MaxChars
 VARIABLES text
 GeneralChars == {97, 101, 49, 48, 46, 43, 45, 39, 47, 42, 10, 32, 123, 59, 36}     \* a e 1 0 . + - ' / * NL SP { ; $
 CommentChars == {47, 42, 97, 10, 32}                                              \* / * a NL SP
+KeywordChars == {97, 115, 46, 32, 49, 95}                                         \* a s . SP 1 _   (the keyword "as" next to dots, digits, underscores)
 Init == text = <<>>
 Next == Len(text) < MaxChars /\ \E c \in Chars : text' = Append(text, c)
 Spec == Init /\ [][Next]_text
